@@ -9,6 +9,7 @@ from ..corpus import payload_bytes
 from ..rawpeer import RawPeer
 from ..runner import sig_of, rearm
 from ..spyfs import DIR
+import aioftp
 
 PROPERTY = "C14"
 LEVEL = "fault_enumeration"
@@ -42,7 +43,9 @@ async def execute(net, hyg, plan):
     tree = {"/d": DIR, "/d/a": b"aaa", "/d/b": b"bb", "/f.bin": content, "/small.txt": b"0123456789", "/old.bin": OLD}
     for i in range(plan.get("dir_entries", 0)):
         tree[f"/d/e{i:03d}"] = b"x" * i
-    w = W.World(net, tree=tree, block_size=bs, backend=plan.get("backend", "memory"), **(plan.get("server_kwargs") or {}))
+    w = W.World(net, tree=tree, block_size=bs, backend=plan.get("backend", "memory"),
+                **({"users": lambda base: [aioftp.User(base_path=base), aioftp.User("alice", "secret", base_path=base)]} if plan.get("before_abor") else {}),
+                **(plan.get("server_kwargs") or {}))
     net.loop.exec_delay = plan.get("exec_delay", 0.0)
     await w.start()
     try:
@@ -130,7 +133,9 @@ async def execute(net, hyg, plan):
                 state["abor_sent"] = True
                 state["abor_at"] = len(net.events)
                 # plan["tail"]: further commands written in the same piece as the ABOR (a second ABOR, a PWD)
-                p.send("\r\n".join(["ABOR"] + list(plan.get("tail", []))))
+                # plan["before_abor"]: commands sent right before it (USER for an account with a password: the session is not
+                # logged in any more when the ABOR arrives - it is the session's own transfer all the same)
+                p.send("\r\n".join(list(plan.get("before_abor", [])) + ["ABOR"] + list(plan.get("tail", []))))
 
         def chain(i, fn):
             if i <= 0:
@@ -187,6 +192,13 @@ async def execute(net, hyg, plan):
                 return True
             return False
 
+        if plan.get("before_abor"):
+            # the replies to the commands in front of the ABOR (331 for USER alice) come first, before or after the 150
+            for code_ in ["331"] * len(plan["before_abor"]):
+                if code_ in seq:
+                    seq.remove(code_)
+                else:
+                    viol.append({"key": "command-before-abor-unanswered", "msg": f"{pos}: {plan['before_abor']} then ABOR: replies {seq}"})
         tail_codes = [{"ABOR": "226", "PWD": "257", "NOOP": "502"}[t] for t in plan.get("tail", [])]
         if tail_codes:
             # every command behind the ABOR is answered after it, in the order sent; a second ABOR finds nothing left to abort
@@ -500,6 +512,12 @@ def gen_cases(tier, seed):
             cases.append({"kind": "enum", "stride": 2 if tier == "quick" else 1,
                           "plan": {"verb": verb, "size": size, "connect": "before", "seed": seed, "followup": fu, "server_kwargs": kw,
                                    "dir_entries": 30 if verb in ("LIST", "MLSD") else 0}})
+    # USER for a password account right before the ABOR: the session is logged out, its transfer is aborted all the same
+    for verb, size, backend in (("RETR", 3 * bs + 17, "memory"), ("STOR", 3 * bs + 17, "memory")) if tier == "quick" else \
+            (("RETR", 3 * bs + 17, "memory"), ("STOR", 3 * bs + 17, "memory"), ("RETR", 70000, "async"), ("LIST", 0, "memory")):
+        cases.append({"kind": "enum", "stride": 2 if tier == "quick" else 1,
+                      "plan": {"verb": verb, "size": size, "connect": "before", "seed": seed, "backend": backend, "followup": "quit",
+                               "before_abor": ["USER alice"], "dir_entries": 12 if verb == "LIST" else 0}})
     # a second ABOR, or another command, written in one piece with the ABOR
     for tail in (["ABOR"], ["PWD"], ["ABOR", "PWD"]):
         for verb, size, backend in ((("RETR", 3 * bs + 17, "async"), ("STOR", 3 * bs + 17, "memory")) if tier == "quick" else
